@@ -145,6 +145,26 @@ class Parser(object):
                     self._parser_error("Sizer of '{}' has to be defined before the array".format(name),
                                        line, pos)
 
+        for member, line, pos in members:
+            if member.optional:
+                self._parser_check(
+                    member.kind == model.Kind.FIXED,
+                    "optional field '{}' of dynamic or unlimited type".format(member.name),
+                    line, pos
+                )
+            if member.size:
+                self._parser_check(
+                    member.kind == model.Kind.FIXED,
+                    "fixed or limited array '{}' of dynamic or unlimited type".format(member.name),
+                    line, pos
+                )
+            if member.is_array:
+                self._parser_check(
+                    member.kind != model.Kind.UNLIMITED,
+                    "array '{}' of unlimited type".format(member.name),
+                    line, pos
+                )
+
         for member, line, pos in members[:-1]:
             self._parser_check(
                 not member.greedy and member.kind != model.Kind.UNLIMITED,
